@@ -133,6 +133,12 @@ def cases(tier):
         for k in range(0, len(alls) - 1, 2):
             out.append((f"shift_roll[det={det};origins={alls[k]},{alls[k + 1]}]",
                         shift_roll_claim((1, 2), det, [list(alls[k]), list(alls[k + 1])]), dict(logic="QF_LRA")))
+    # integer origins off the detector (set through the origin_fitted setter / force_*_origin): still the circular roll
+    for det, pairs in (((3, 3), [((-1, -2), (4, 3)), ((3, -1), (-3, 5)), ((0, 3), (7, -4))]),
+                       ((2, 3), [((-1, 0), (2, 4)), ((1, -3), (3, 3))])):
+        for a, b in pairs:
+            out.append((f"shift_roll_off_detector[det={det};origins={a},{b}]",
+                        shift_roll_claim((1, 2), det, [list(a), list(b)]), dict(logic="QF_LRA")))
     return out
 
 
